@@ -889,6 +889,9 @@ pub trait DynShape: Sync + Send {
     fn from_wrapped_bytes(&self, b: &[u8]) -> Result<ReadOut, FErr>;
     /// from_bytes / from_mut_bytes without touching the result (verdict only)
     fn from_bytes_only(&self, b: &[u8]) -> Result<(), FErr>;
+    /// Map and report where the mapped reference lies: (size_of_val, as_bytes().len(), offset of as_bytes() from the
+    /// start of `b`); every byte of as_bytes() is read.
+    fn from_bytes_extent(&self, b: &[u8]) -> Result<(usize, usize, isize), FErr>;
     fn from_mut_bytes_only(&self, b: &mut [u8]) -> Result<(), FErr>;
     /// `T::new_in_place(bytes, emplacer(v))`, then run the session on the result.
     fn new_in_place(&self, b: &mut [u8], v: &Value, route: &[u8], f: Session) -> Result<(), FErr>;
@@ -958,6 +961,13 @@ impl<T: Shape + ?Sized> DynShape for Of<T> {
     }
     fn from_bytes_only(&self, b: &[u8]) -> Result<(), FErr> {
         T::from_bytes(b).map(|_| ()).map_err(FErr::from)
+    }
+    fn from_bytes_extent(&self, b: &[u8]) -> Result<(usize, usize, isize), FErr> {
+        let r = T::from_bytes(b)?;
+        let ab = flatty::traits::FlatUnsized::as_bytes(r);
+        let sum = ab.iter().fold(0u8, |a, x| a.wrapping_add(*x));
+        std::hint::black_box(sum);
+        Ok((std::mem::size_of_val(r), ab.len(), ab.as_ptr() as isize - b.as_ptr() as isize))
     }
     fn from_mut_bytes_only(&self, b: &mut [u8]) -> Result<(), FErr> {
         T::from_mut_bytes(b).map(|_| ()).map_err(FErr::from)
@@ -1091,6 +1101,9 @@ impl<T: Shape + ?Sized> DynShape for OfIo<T> {
     }
     fn from_bytes_only(&self, b: &[u8]) -> Result<(), FErr> {
         self.0.from_bytes_only(b)
+    }
+    fn from_bytes_extent(&self, b: &[u8]) -> Result<(usize, usize, isize), FErr> {
+        self.0.from_bytes_extent(b)
     }
     fn from_mut_bytes_only(&self, b: &mut [u8]) -> Result<(), FErr> {
         self.0.from_mut_bytes_only(b)
